@@ -878,6 +878,21 @@ type witness struct {
 	Observed outcome  `json:"observed"`
 }
 
+// questionable: the body carries a Quest label, it is the body the server
+// decodes for this request, and nothing else about the request is unusual.
+func questionable(cs *Case) bool {
+	if cs.Body.Quest == "" || cs.Method != "REPORT" || docTarget(cs.Body.Doc) != cs.Target {
+		return false
+	}
+	if cs.BodyPad > 0 || cs.fault() != "" || cs.Wire != "" || cs.Cancelled || unreadable(cs) {
+		return false
+	}
+	if cs.Level == "well-known" {
+		return false
+	}
+	return cs.CT.Set && cs.CT.Cls == "xml"
+}
+
 func violates2(cs *Case, out outcome) bool {
 	return !statusOK(cs, out.Status) || len(out.Mutations) > 0
 }
@@ -1012,6 +1027,15 @@ func (e *env) run(cs *Case) {
 	}
 	if out.Status < 100 || out.Status > 599 {
 		c.Report(entryPoint(cs)+" | any | invalid status", fmt.Sprintf("handler produced status %d", out.Status), witness{cs, bodyText(cs.Body.Data), rs, out})
+		return
+	}
+	if len(rs) == 0 && questionable(cs) && out.Status >= 500 {
+		// Neither reading of such a request - malformed (4xx owed) or
+		// acceptable (the backend double is healthy, nothing fails) - makes
+		// it the server's error.
+		c.Report(entryPoint(cs)+" | "+cs.Body.Doc+" "+cs.Body.Quest+" | "+observedString(out),
+			fmt.Sprintf("%s %s %s: the request breaks a MUST of the RFC (%s); accepting it and refusing it with a 4xx are both left open, but it was answered %s", cs.Target, cs.Method, cs.Path, cs.Body.Quest, observedString(out)),
+			witness{cs, bodyText(cs.Body.Data), rs, out})
 		return
 	}
 	if len(rs) == 0 || !violates2(cs, out) {
